@@ -53,7 +53,7 @@ MarkerOf(E, h) == E[h][1][1]
 \* references -> markers; <<-1>> marks a target without marker (the conversion is then unspecified)
 RefMarkers(E, r) == IF r = None THEN None
                     ELSE << [k \in 1..Len(r[1]) |-> IF r[1][k] \in DOMAIN E /\ E[r[1][k]][1] # None THEN MarkerOf(E, r[1][k]) ELSE 0 - 1] >>
-Convertible(E, h) == E[h][4] = None \/ \A k \in 1..Len(E[h][4][1]) : E[h][4][1][k] \in DOMAIN E /\ E[E[h][4][1][k]][1] # None
+Convertible(E, h) == IF E[h][4] = None THEN TRUE ELSE \A k \in 1..Len(E[h][4][1]) : E[h][4][1][k] \in DOMAIN E /\ E[E[h][4][1][k]][1] # None
 
 RecordOf(E, h) == [m |-> MarkerOf(E, h), a |-> E[h][2], b |-> E[h][3], r |-> RefMarkers(E, E[h][4])]
 
